@@ -39,6 +39,7 @@ type appModel struct {
 	stopping bool // a graceful stop is pending behind a parked member
 	mode     gen.ApplicationMode
 	alive    map[int]bool
+	parked   int // the member that keeps a graceful stop pending (stopping == true)
 	starts   int
 	terms    int
 	// admissible reasons of the terms-th Terminate callback
@@ -430,7 +431,7 @@ func TestModel(t *testing.T) {
 		steps := rapid.IntRange(4, 30).Draw(t, "steps")
 		for s := 0; s < steps; s++ {
 			a := w.apps[rapid.IntRange(0, napps-1).Draw(t, "app")]
-			op := rapid.SampledFrom([]string{"load", "load", "start", "start", "start", "start-mode", "start-fail", "die", "die", "die", "die2", "stop", "stop", "force", "parked-stop", "stop+crash", "unload"}).Draw(t, "op")
+			op := rapid.SampledFrom([]string{"load", "load", "start", "start", "start", "start-mode", "start-fail", "die", "die", "die", "die2", "stop", "stop", "force", "parked-stop", "parked-stop", "finish-stop", "finish-stop", "stop+crash", "unload"}).Draw(t, "op")
 			switch op {
 			case "load":
 				_, err := w.node.ApplicationLoad(a.beh)
@@ -537,7 +538,10 @@ func TestModel(t *testing.T) {
 						w.fatalf("stopping the unknown %s returned %v", a.name, err)
 					}
 				case a.stopping:
-					continue // covered by parked-stop
+					if err == nil {
+						w.fatalf("ApplicationStop(%s) returned nil while a stop is pending and a member is still alive", a.name)
+					}
+					continue
 				case !a.running:
 					if err != nil {
 						w.fatalf("stopping %s, which is not running, returned %v", a.name, err)
@@ -600,22 +604,15 @@ func TestModel(t *testing.T) {
 				if again := w.node.ApplicationStop(a.name); again == nil {
 					w.fatalf("a second ApplicationStop(%s) returned nil while member %s was still alive", a.name, lbl)
 				}
-				how := rapid.IntRange(0, 1).Draw(t, "finish")
-				if how == 0 {
-					close(g.Open)
-					delete(w.gates, lbl)
-					w.waitGone(a, j)
-					w.memberGone(a, j, gen.TerminateReasonShutdown)
-				} else {
-					ferr := w.node.ApplicationStopForce(a.name)
-					close(g.Open)
-					delete(w.gates, lbl)
-					w.waitGone(a, j)
-					w.logf("force-after-parked(%s)=%v", a.name, ferr)
-					delete(a.alive, j)
-					a.stopped(func(e error) bool { return e == gen.TerminateReasonKill || e == gen.TerminateReasonShutdown }, "shutdown or kill (stop, then forced stop)")
-				}
+				// the application stays in state 'stopping' (other steps see it like that) until a
+				// later finish-stop step, or the end of the history, lets the member go
+				a.parked = j
 				w.overlap = true
+			case "finish-stop":
+				if !a.stopping {
+					continue
+				}
+				w.finishStop(a, rapid.IntRange(0, 1).Draw(t, "finish"))
 			case "stop+crash":
 				l := a.aliveList()
 				if !a.running || a.stopping || len(l) == 0 {
@@ -647,6 +644,12 @@ func TestModel(t *testing.T) {
 		}
 		// every application can be stopped and unloaded in the end
 		for _, a := range w.apps {
+			if a.stopping {
+				w.finishStop(a, 0)
+				w.settle()
+			}
+		}
+		for _, a := range w.apps {
 			if a.loaded && a.running && !a.stopping {
 				if err := w.node.ApplicationStop(a.name); err != nil {
 					w.fatalf("final ApplicationStop(%s): %v", a.name, err)
@@ -665,6 +668,29 @@ func TestModel(t *testing.T) {
 		}
 		recModel.Case(w.overlap || w.restartAfterStop, strings.Join(w.trace, ";"), labels...)
 	})
+}
+
+// finishStop ends a pending graceful stop: the busy member is released (how 0) or the
+// application is stopped by force first (how 1).
+func (w *world) finishStop(a *appModel, how int) {
+	j := a.parked
+	lbl := label(a.idx, j)
+	open := w.gates[lbl]
+	if how == 0 {
+		close(open)
+		delete(w.gates, lbl)
+		w.waitGone(a, j)
+		w.logf("finish-stop(%s,release)", a.name)
+		w.memberGone(a, j, gen.TerminateReasonShutdown)
+		return
+	}
+	ferr := w.node.ApplicationStopForce(a.name)
+	close(open)
+	delete(w.gates, lbl)
+	w.waitGone(a, j)
+	w.logf("finish-stop(%s,force)=%v", a.name, ferr)
+	delete(a.alive, j)
+	a.stopped(func(e error) bool { return e == gen.TerminateReasonKill || e == gen.TerminateReasonShutdown }, "shutdown or kill (stop, then forced stop)")
 }
 
 // fire is terminateMember without touching shared counters (usable from goroutines).
